@@ -88,7 +88,7 @@ func coreEq(a, b string) bool {
 
 func hasPre(s string) bool { _, p := ref.SemverSplit(s); return len(p) > 0 }
 
-var gemLetter = regexp.MustCompile(`[A-Za-z]`)
+var gemLetter = regexp.MustCompile(`[A-Za-z-]`) // a letter or a dash (= ".pre.") starts the pre-release part
 
 func gemNumPrefix(s string) string {
 	s = strings.TrimPrefix(s, "v")
